@@ -65,11 +65,22 @@ def _si(x):
 
 
 class Gap:
-    """marker element standing for (a part of) the opaque region in element lists handed to ideal functions"""
-    __slots__ = ('blob',)
+    """marker element standing for the octets [lo, hi) of an opaque payload in element lists handed to ideal functions"""
+    __slots__ = ('blob', 'lo', 'hi')
 
-    def __init__(self, blob):
+    def __init__(self, blob, lo=0, hi=None):
         self.blob = blob
+        self.lo = lo
+        self.hi = blob.n if hi is None else hi
+
+    def same(self, o):
+        return (o.__class__ is Gap and o.blob is self.blob and z3.eq(z3.simplify(_e(self.lo)), z3.simplify(_e(o.lo)))
+                and z3.eq(z3.simplify(_e(self.hi)), z3.simplify(_e(o.hi))))
+
+    def eq_formula(self, o):
+        if o.__class__ is not Gap or o.blob is not self.blob:
+            return z3.BoolVal(False)
+        return z3.And(_e(self.lo) == _e(o.lo), _e(self.hi) == _e(o.hi))
 
 
 class EBlob:
@@ -309,7 +320,8 @@ class EView:
                 self.buf.place(lo, hi, v)
                 return
             if _isinstance(v, EView):
-                raise HarnessError('elastic: copy between elastic buffers')
+                self._copy_from(lo, hi, v)
+                return
             vals = v.items() if _isinstance(v, SBytes) else list(v)
             ln = _const(hi - lo)
             if ln is None:
@@ -332,6 +344,34 @@ class EView:
                 raise ValueError('byte must be in range(0, 256)')
         self.buf.put(self.a + i, v)
 
+    def _copy_from(self, lo, hi, src):
+        """slice assignment from a window of ANOTHER elastic buffer that contains that buffer's whole payload: the head
+        and tail octets are copied, the payload is placed (it stays the same opaque object)"""
+        sb = src.buf
+        if sb is self.buf or sb.P is None:
+            raise HarnessError('elastic: unsupported copy between elastic windows')
+        rl = sb.region(src.a)
+        rh = sb.region(src.b)
+        if rl is None or rh is None or rl[0] != 'pre' or rh[0] != 'post':
+            raise HarnessError('elastic: copy of a window that cuts the opaque region')
+        d = _const_s(_si((hi - lo) - (src.b - src.a)))
+        if d is None:
+            if not ((hi - lo) == (src.b - src.a)):
+                raise ValueError('memoryview assignment: lvalue and rvalue have different structures')
+        elif d != 0:
+            raise ValueError('memoryview assignment: lvalue and rvalue have different structures')
+        head = sb.pre[rl[1]:sb.P]
+        tail = sb.post[0:rh[1]]
+        c = _const(lo)
+        if c is None:
+            raise HarnessError('elastic: copy to a symbolic offset')
+        for k, x in enumerate(head):
+            self.buf.put(c + k, x)
+        g = c + _len(head)
+        self.buf.place(g, g + sb.blob.n, sb.blob)
+        for k, x in enumerate(tail):
+            self.buf.post[k] = x
+
     # -- whole-window helpers ------------------------------------------------------------------
     def covers_blob(self):
         """SBool/bool: the window is exactly the opaque region"""
@@ -341,23 +381,36 @@ class EView:
         return SBool(z3.And(_e(self.a) == buf.P, _e(self.b) - _e(self.a) == _e(buf.blob.n)))
 
     def elements(self):
-        """element list for ideal functions: head octets, Gap marker, tail octets (approximate at odd bounds)"""
+        """element list for ideal functions: head octets, a Gap marker with its bounds, tail octets"""
         buf = self.buf
         rl = buf.region(self.a)
         rh = buf.region(self.b)
+        if buf.P is None:
+            if rl is None or rh is None:
+                raise HarnessError('elastic: window with symbolic bounds before the payload was placed')
+            buf._grow(rh[1] - 1) if rh[1] > 0 else None
+            return list(buf.pre[rl[1]:rh[1]])
+        if rl is not None and rh is not None and rl[0] == rh[0]:
+            store = buf.pre if rl[0] == 'pre' else buf.post
+            return list(store[rl[1]:rh[1]])
         out = []
         if rl is not None and rl[0] == 'pre':
-            end = buf.P if buf.P is not None else (rh[1] if rh else _len(buf.pre))
-            if rh is not None and rh[0] == 'pre':
-                end = rh[1]
-            buf._grow(end - 1) if end > 0 else None
-            out.extend(buf.pre[rl[1]:end])
-            if rh is not None and rh[0] == 'pre':
-                return out
-        out.append(Gap(buf.blob))
+            out.extend(buf.pre[rl[1]:buf.P])
+            glo = 0
+        elif rl is not None:
+            raise HarnessError('elastic: window starts behind its end')
+        else:
+            glo = _si(self.a - buf.P)
         if rh is not None and rh[0] == 'post':
-            start = rl[1] if (rl is not None and rl[0] == 'post') else 0
-            out.extend(buf.post[start:rh[1]])
+            ghi = buf.blob.n
+            tail = buf.post[0:rh[1]]
+        elif rh is not None:
+            raise HarnessError('elastic: window ends before its start')
+        else:
+            ghi = _si(self.b - buf.P)
+            tail = []
+        out.append(Gap(buf.blob, glo, ghi))
+        out.extend(tail)
         return out
 
     def __eq__(self, o):
@@ -410,10 +463,42 @@ class EView:
         return 'EView[%s:%s]' % (self.a, self.b)
 
 
+class EMsg:
+    """the concatenation of byte strings of which at least one contains an opaque region (``b''.join(parts)``): an
+    element list with Gap markers, good for being hashed / signed by the ideal functions and nothing else"""
+    kind = 'bytes'
+    readonly = True
+
+    def __init__(self, els):
+        self.els = els
+
+    def elements(self):
+        return list(self.els)
+
+    def __len__(self):
+        raise HarnessError('len() of a joined elastic message')
+
+
+def join(sep, parts):
+    out = []
+    for i, p in enumerate(parts):
+        if i:
+            out.extend(sep)
+        if _isinstance(p, (EView, EMsg)):
+            out.extend(p.elements())
+        elif _isinstance(p, EBlob):
+            out.append(Gap(p))
+        elif _isinstance(p, SBytes):
+            out.extend(p.items())
+        else:
+            out.extend(bytes(p))
+    return EMsg(out)
+
+
 def alloc(total):
     """bytearray(total) for a non-constant symbolic total"""
     buf = EBuf(total)
     return EView(buf, 0, total, 'bytearray', False)
 
 
-core._EVIEW[:] = [EView, alloc, EBlob]
+core._EVIEW[:] = [EView, alloc, EBlob, EMsg, join]
